@@ -14,7 +14,7 @@ pub struct SrcFile {
   pub text: String,
   #[serde(default)]
   pub hex: Option<String>,
-  /// normal | empty | non_utf8 | oversize | binary
+  /// normal | empty | non_utf8 | oversize | oversize_mb | big_short | big_short_mb | binary
   pub kind: String,
   /// this path is a hard link to that other file of the world (same inode, same content)
   #[serde(default)]
@@ -31,6 +31,29 @@ impl SrcFile {
         v.extend_from_slice(b"console.log(1);\nfoo(1, 2);\n/* ");
         v.resize(3_000_200, b'x');
         v.extend_from_slice(b" */\nlet a = 1 == 2;\n");
+        v
+      }
+      (None, "big_short_mb") => {
+        // the same with multi-byte characters around offset 3_000_000; `text` holds the ASCII padding
+        let pad: usize = self.text.parse().unwrap_or(0);
+        let mut v = Vec::with_capacity(3_100_000);
+        v.extend_from_slice(b"console.log(1);\nfoo(1, 2);\n/* ");
+        v.extend(std::iter::repeat(b'x').take(pad));
+        while v.len() < 3_000_200 {
+          v.extend_from_slice("\u{20ac}".as_bytes());
+        }
+        v.extend_from_slice(b" */\nlet a = 1 == 2;\n");
+        v
+      }
+      (None, "oversize_mb") => {
+        let pad: usize = self.text.parse().unwrap_or(0);
+        let mut v = Vec::with_capacity(3_300_000);
+        v.extend_from_slice(b"//");
+        v.extend(std::iter::repeat(b'x').take(pad));
+        v.push(b'\n');
+        while v.len() <= 3_100_000 {
+          v.extend_from_slice("//\u{e9}\u{20ac}\n".as_bytes());
+        }
         v
       }
       (None, "oversize") => {
@@ -250,6 +273,11 @@ pub fn gen_source(rng: &mut Rng, lang: &str) -> String {
     if rng.chance(0.6) {
       s.push_str("<style>\na { color: red; }\n</style>\n");
     }
+    // the same embedded language spelled a second way: its blocks form a document of their own
+    if rng.chance(0.3) {
+      let spelled = *rng.pick(&["javascript", "jsx", "js"]);
+      s.push_str(&format!("<script lang=\"{spelled}\">\nconsole.log(2);\nbar(foo(3, 4), 1 == 2);\n</script>\n"));
+    }
     return s;
   }
   let n = rng.range(1, 10);
@@ -383,8 +411,20 @@ pub fn gen_world(rng: &mut Rng, o: &GenOpts) -> CliWorld {
         0 | 1 | 2 => SrcFile { path, text: String::new(), hex: None, kind: "empty".into(), link_to: None },
         3 | 4 => SrcFile { path, text: String::new(), hex: Some("6c657420fffe203d20313b0a".into()), kind: "non_utf8".into(), link_to: None },
         5 => SrcFile { path, text: "let a = \u{0}1;\nconsole.log(a);\n".into(), hex: None, kind: "binary".into(), link_to: None },
-        6 => SrcFile { path, text: String::new(), hex: None, kind: "big_short".into(), link_to: None },
-        _ => SrcFile { path, text: String::new(), hex: None, kind: "oversize".into(), link_to: None },
+        6 => {
+          if rng.chance(0.5) {
+            SrcFile { path, text: rng.below(3).to_string(), hex: None, kind: "big_short_mb".into(), link_to: None }
+          } else {
+            SrcFile { path, text: String::new(), hex: None, kind: "big_short".into(), link_to: None }
+          }
+        }
+        _ => {
+          if rng.chance(0.5) {
+            SrcFile { path, text: rng.below(6).to_string(), hex: None, kind: "oversize_mb".into(), link_to: None }
+          } else {
+            SrcFile { path, text: String::new(), hex: None, kind: "oversize".into(), link_to: None }
+          }
+        }
       }
     } else {
       SrcFile { path, text: gen_source(rng, lang), hex: None, kind: "normal".into(), link_to: None }
